@@ -215,6 +215,14 @@ def gen_C07(g, tier):
             for sl in (1, 2):
                 cs.append(Case('o.c07.squarelag %d %d %d #%s' % (w, ns, sl, 'lagged-uniform-phase' if uniform else 'lagged-restricted-phase'), 'orc',
                                'hold-lagged-' + ('uniform' if uniform else 'restricted'), check=small_all(1e-12)))
+    # widths and sample sizes around powers of two, well beyond the small grid above
+    for w in ((63, 64, 65) if tier == 'quick' else (63, 64, 65, 127, 129, 255, 256, 257)):
+        cs.append(Case('o.c07.boxcar %d %s' % (w, hexes([g.r.uniform(0.5, 2), g.r.uniform(0.01, 2)])), 'orc', 'boxcar-impulse-response-wide', check=small_all(1e-11)))
+    for w, ns in ((64, 256), (256, 64), (1, 300), (255, 255), (256, 512), (65, 65 * 7)) + (() if tier == 'quick' else ((1000, 1000),)):   # (cost grows with w * ns^2)
+        mis = ns < w and w % ns != 0
+        if mis: continue
+        cs.append(Case('o.c07.square %d %d #within-aligned' % (w, ns), 'orc', 'hold-within-aligned-large', check=small_all(1e-11)))
+        cs.append(Case('o.c07.squarelag %d %d 0 #lag0-aligned' % (w, ns), 'orc', 'hold-lag0-aligned-large', check=small_all(1e-11)))
     # modulation factors of any mean (the shipped models all have unit mean): exact moments of the generated Stokes parameters
     for _ in range(6 if tier == 'quick' else 120):
         I0 = g.choice([1.0, 2.0, 0.5])
